@@ -198,7 +198,7 @@ func (vn *vnNet) installHooks() {
 
 // settle waits until every running node has finished reacting.
 func (vn *vnNet) settle() bool {
-	deadline := time.Now().Add(6 * time.Second)
+	deadline := time.Now().Add(vlib.Stretch(6 * time.Second))
 	stable := 0
 	last := int64(-1)
 	for {
@@ -618,7 +618,7 @@ func (vn *vnNet) stopNode(n *vnNode) {
 	n.up = false
 	vn.tr.Emit("Stop", vlib.E{"node": n.idx, "clock": vn.T(n)})
 	h := n.h
-	r := vlib.Call(5*time.Second, func() { h.Stop(context.Background()) })
+	r := vlib.Call(15*time.Second, func() { h.Stop(context.Background()) })
 	if !r.Returned {
 		vn.tr.Emit("StopBlocked", vlib.E{"node": n.idx})
 	}
@@ -706,7 +706,7 @@ func (vn *vnNet) deliverMsg(m *vnMsg, kind string) {
 	// logged BEFORE the call: the aggregator may store the beacon before ProcessPartialBeacon returns
 	vn.tr.Emit("Deliver", vlib.E{"to": m.to, "from": m.from, "idx": idx, "round": m.pkt.Round, "prevd": vnDigest(m.pkt.PreviousSignature),
 		"kind": kind, "valid": valid, "member": member, "own": own, "epoch": ep, "msg": m.id})
-	r := vlib.Call(5*time.Second, func() { _, err = to.h.ProcessPartialBeacon(ctx, m.pkt) })
+	r := vlib.Call(20*time.Second, func() { _, err = to.h.ProcessPartialBeacon(ctx, m.pkt) })
 	res := "ok"
 	if !r.Returned {
 		res = "blocked"
@@ -865,7 +865,10 @@ func (vn *vnNet) scan(n *vnNode) {
 }
 
 func (vn *vnNet) quiesce(label string) {
-	vn.settle()
+	settled := vn.settle()
+	if !settled { // a busy machine: give the nodes a second (load-stretched) period before the heads are judged
+		settled = vn.settle()
+	}
 	heads := make([]int64, len(vn.nodes))
 	clocks := make([]int64, len(vn.nodes))
 	ups := make([]bool, len(vn.nodes))
@@ -887,7 +890,7 @@ func (vn *vnNet) quiesce(label string) {
 	vn.mu.Lock()
 	inflight := len(vn.inflight)
 	vn.mu.Unlock()
-	vn.tr.Emit("Quiesce", vlib.E{"label": label, "live": len(label) >= 4 && label[:4] == "live", "catchup": len(label) >= 12 && label[:12] == "live-catchup", "heads": heads, "clocks": clocks, "up": ups, "inflight": inflight, "epochs": liveEp})
+	vn.tr.Emit("Quiesce", vlib.E{"label": label, "live": len(label) >= 4 && label[:4] == "live", "catchup": len(label) >= 12 && label[:12] == "live-catchup", "heads": heads, "clocks": clocks, "up": ups, "inflight": inflight, "epochs": liveEp, "settled": settled})
 }
 
 func (vn *vnNet) shutdown() {
@@ -1040,7 +1043,7 @@ func (r *vnRun) exec(st vnStep) {
 	case "waitgate":
 		g := r.gates[fmt.Sprintf("%s/%d", st.Point, st.Node)]
 		if g != nil {
-			_, ok := g.WaitParked(5 * time.Second)
+			_, ok := g.WaitParked(vlib.Stretch(5 * time.Second))
 			vn.tr.Emit("Parked", vlib.E{"node": st.Node, "point": st.Point, "ok": ok})
 		}
 	case "release":
